@@ -32,7 +32,7 @@ def history_check(prop, tier, seed, shapes, monitors, modules, profiles, p_inval
         # a user `Clone` that panics at its k-th call inside Extend<Ref> / to_vec: `Vec<T>` is left with whole elements only
         fsh = [x for x in shapes if x in ("Two", "Flat4", "Heap", "NMid", "Deep")] if tier == "quick" else shapes
         _, oth = gen.fault_scenarios(fsh, 2 if tier == "quick" else 4, seed)
-        cf = [x for x in oth if x.tag in ("extend_refs-fault", "to_vec-fault")]
+        cf = [x for x in oth if x.tag in ("extend_refs-fault", "to_vec-fault", "resize-overflow", "clone_from-fault")]
         suites.append(run_suite(prop, cf, ["debug"] if tier == "quick" else profiles, monitors, "clone-fault", compare_model=False))
     if prop == "C03":
         # every other API that moves ownership: RefMut::replace, pointer writes, writes through views and iterators
@@ -104,6 +104,10 @@ def check_C09(tier, seed):
     tsort = [s for s in gen.sort_scenarios(["One", "Two", "NMid"] if tier == "quick" else shapes, 3 if tier == "quick" else 4, seed, nrandom=6, max_random_len=40)
              if any((" tsm_" in l) or (" tvec_" in l) or l.startswith("apply_index") for l in s.lines)]
     suites.append(run_suite("C09", tsort, ["debug", "release"], [mon_c09], "trait-sort", compare_model=MODEL_C09))
+    # index lists that are not permutations (through both traits), and the capacity methods of SoAVec against the inherent ones
+    suites.append(run_suite("C09", gen.slicemut_invalid(["One", "Two", "NMid"] if tier == "quick" else shapes, 3, seed), ["debug", "release"], [mon_c09], "trait-invalid", compare_model=False))
+    suites.append(run_suite("C09", [gen.to_trait(s) for s in gen.cap_scenarios(gen.CAP_SHAPES, z["nrand"] // 4, z["nops"], seed)[::4]], ["debug"] if tier == "quick" else ["debug", "release"],
+                            [mon_c09], "trait-capacity", compare_model=False))
     def widen():
         yield run_suite("C09", gen.trait_access(shapes, 6), ["debug", "release"], [mon_c09], "widen-access", compare_model=False)
     return finish("C09", tier, seed, t0, "proof", proof, suites, [mon_c09], widen=widen)
